@@ -218,7 +218,10 @@ Line ==
           /\ AtNow /\ Accept(L, e.p) /\ UNCHANGED <<opt, script, appCl, pend>>
      [] e.k = "hook" ->
           /\ AtNow
-          /\ e.inuse = TRUE /\ e.idok = TRUE
+          \* the id is held for as long as the specification says it is: until the Detached callback has returned.  An
+          \* Attached callback that "is being reported" while the connection is already going may be entered after that
+          \* (hook word attaching, detached, attached): the id may have been released by then
+          /\ (e.p \in ids => e.inuse = TRUE) /\ e.idok = TRUE
           /\ e.ep = (IF owner[e.p] \in Dialer THEN "d" ELSE "l")
           /\ CASE e.ev = "attaching" -> HookAttaching(e.p)
                [] e.ev = "attached" -> HookAttached(e.p)
